@@ -278,18 +278,24 @@ impl Identifier {
 
 impl From<&str> for Identifier {
     fn from(value: &str) -> Self {
+        #[cfg(feature = "verif")]
+        crate::verif::point("intern");
         Self(value.into())
     }
 }
 
 impl From<&String> for Identifier {
     fn from(value: &String) -> Self {
+        #[cfg(feature = "verif")]
+        crate::verif::point("intern");
         Self(value.into())
     }
 }
 
 impl From<String> for Identifier {
     fn from(value: String) -> Self {
+        #[cfg(feature = "verif")]
+        crate::verif::point("intern");
         Self(value.into())
     }
 }
